@@ -381,17 +381,21 @@ void genC19(uint64_t seed, int tier, Scenario& sc) {
     // tempo-losing lines: single vs double pawn steps and knights going out and back, so that the same position is
     // reached by lines of different length; a pawn move resets the half-move clock (part of the book hash)
     const bool tempoLines = r.chance(0.5);
-    auto genLine = [&r]() {
-        static const char* vocab[] = {"e2e3", "e3e4", "e2e4", "d2d3", "d3d4", "d2d4", "g1f3", "f3g1", "b1c3", "c3b1",
-                                      "e7e6", "e6e5", "e7e5", "d7d6", "d6d5", "d7d5", "g8f6", "f6g8", "b8c6", "c6b8"};
+    const bool tempoOnly = tempoLines && r.chance(0.5); // a dense web of transposing lines, long ones tending to come first
+    const int nVocab = tempoOnly ? (r.chance(0.5) ? 8 : 12) : 20;
+    if (tempoOnly) n = (int)r.range(10, tier > 0 ? 120 : 50);
+    auto genLine = [&r, nVocab, tempoOnly, n](int i) {
+        static const char* vocab[] = {"e2e3", "e3e4", "e2e4", "g1f3", "f3g1", "e7e6", "e6e5", "e7e5", "g8f6", "f6g8", "d2d4", "d7d5",
+                                      "d2d3", "d3d4", "d7d6", "d6d5", "b1c3", "c3b1", "b8c6", "c6b8"};
         Position p = TextIO::readFEN(TextIO::startPosFEN);
         UndoInfo ui;
         std::string line = "line";
         int len = (int)r.range(1, 10);
+        if (tempoOnly) len = i < n / 2 ? (int)r.range(6, 16) : (int)r.range(1, 8);
         for (int i = 0; i < len; i++) {
             std::vector<Move> lm, ok;
             uci::legalMoves(p, lm);
-            for (const Move& m : lm) { std::string u = TextIO::moveToUCIString(m); for (const char* v : vocab) if (u == v) ok.push_back(m); }
+            for (const Move& m : lm) { std::string u = TextIO::moveToUCIString(m); for (int vi = 0; vi < nVocab; vi++) if (u == vocab[vi]) ok.push_back(m); }
             if (ok.empty()) break;
             Move m = ok[r.below(ok.size())];
             line += " " + TextIO::moveToUCIString(m);
@@ -401,7 +405,7 @@ void genC19(uint64_t seed, int tier, Scenario& sc) {
     };
     for (int i = 0; i < n; i++) {
         int k = (int)r.below(100);
-        if (tempoLines && r.chance(0.4)) { sc.ops.push_back(genLine()); continue; }
+        if (tempoLines && r.chance(tempoOnly ? 0.85 : 0.4)) { sc.ops.push_back(genLine(i)); continue; }
         // low node indices are preferred so that lines get deep and transpositions appear
         uint64_t nodeSel = r.chance(0.5) ? r.next() : r.below(6);
         if (k < 45) sc.ops.push_back("add " + std::to_string(nodeSel) + " " + std::to_string(r.chance(0.6) ? r.below(4) : r.next() >> 1));
